@@ -31,6 +31,7 @@ REQUIRE_CLAUSES = ["bed_lists_exactly", "bed_copy_number", "vcf_one_per_variant"
 
 # row tuple layout of spec/Exports.tla
 PFX, BASE, S, E, GENE, PROBES, CN, QN, QD, LG = range(10)
+MISS = 10   # file rows only (never seen by the specification): 1 = the log2 cell is empty in the file
 
 # ----------------------------------------------------------------------------- tokeniser (encoding only)
 _re_int = re.compile(r"^-?\d+$")
@@ -135,8 +136,32 @@ def _write_file(inp, tab, path):
     with open(path, "w") as f:
         f.write("\t".join(_columns(inp)) + "\n")
         for r in tab:
-            f.write("\t".join(str(x) for x in _row_values(inp, r, True)) + "\n")
+            vals = [str(x) for x in _row_values(inp, r, True)]
+            if len(r) > MISS and r[MISS]:
+                vals[4] = ""                                     # a bin whose log2 cell is empty in the file
+            f.write("\t".join(vals) + "\n")
     return path
+
+
+class _EncodingError(Exception):
+    """The harness cannot encode what the reader returned (a harness problem, never an outcome)."""
+
+
+def _read_back(inp, path):
+    """The table the export is given: the rows cnvlib's reader returns for the file (content only: chromosome,
+    start, end, gene, log2[, probes] -- not the index), in the row layout of the specification."""
+    from cnvlib.cmdutil import read_cna
+    df = read_cna(path).data
+    rows = []
+    probes = df["probes"] if inp["hasprobes"] else [0] * len(df)
+    for c, s, e, g, v, p in zip(df["chromosome"], df["start"], df["end"], df["gene"], df["log2"], probes):
+        c = str(c)
+        pfx, base = ("chr", c[3:]) if c.startswith("chr") else ("", c)
+        lg = Decimal(repr(float(v))) * 1000
+        if lg != lg.to_integral_value() or float(p) != int(p):
+            raise _EncodingError(f"value off the decimal grid read back from {path}: log2={v!r} probes={p!r}")
+        rows.append([pfx, base, int(s), int(e), str(g), int(p), 0, 1, 1, int(lg)])
+    return rows
 
 
 def _genome(inp):
@@ -178,7 +203,13 @@ def _run_tables(inp, tmp):
     from cnvlib import commands
     op = inp["op"]
     ext = ".cns" if op == "seg" else ".cnr"
-    paths = [_write_file(inp, tab, os.path.join(tmp(), str(k), sid + ext)) for k, (sid, tab) in enumerate(inp["samples"])]
+    # `files` (optional) is what is written to disk: rows in file order, possibly with empty log2 cells; the
+    # specification is then given, as `samples`, the tables cnvlib's own reader returns for those files.
+    files = inp["files"] if "files" in inp else inp["samples"]
+    paths = [_write_file(inp, tab, os.path.join(tmp(), str(k), sid + ext)) for k, (sid, tab) in enumerate(files)]
+    if "files" in inp:
+        inp["samples"] = []
+        inp["samples"] = [[sid, _read_back(inp, paths[k])] for k, (sid, tab) in enumerate(files)]
     outp = os.path.join(tmp(), "out.txt")
     if op == "seg":
         commands._cmd_export_seg(Namespace(filenames=paths, enumerate_chroms=inp["enumerate"], output=outp))
@@ -199,7 +230,7 @@ def _run_tables(inp, tmp):
 
 
 _INPUT_KEYS = ("op", "via", "tab", "hascn", "hasprobes", "lmode", "ploidy", "hapx", "female", "genome", "show",
-               "labmode", "label", "sid", "samples", "enumerate")
+               "labmode", "label", "sid", "samples", "enumerate", "files")
 
 
 def execute(inp):
@@ -217,6 +248,8 @@ def execute(inp):
             rec["out"] = _run_bed_vcf(rec, tmp)
         else:
             rec["out"] = _run_tables(rec, tmp)
+    except _EncodingError:
+        raise
     except Exception as e:   # an exception of the implementation is an outcome the specification judges
         rec["err"] = (type(e).__name__ + ": " + str(e))[:160].replace(tmp() if made else "\0", "$TMP")
     finally:
@@ -297,7 +330,7 @@ def _scopes(tier, seed):
                    ploidies=[pl], females=[fe], hapxs=[hx], pfxs=[px], genomes=[gn]),
             _scope("<=3 rows, cn column over 3 values, one configuration", cns=[c0, c0 + 1, c0 + 2], maxrows=3,
                    ploidies=[pl], females=[not fe], hapxs=[hx], pfxs=[px], genomes=[gn]),
-            _scope("seg / jtv / cdt / nexus: 1..2 files of <=2 bins, ids from {A, B}", mops=tab_ops, pfxs=[px],
+            _scope("seg / jtv / cdt / nexus: 1..2 files of <=2 bins out of 4, ids from {A, B}", mops=tab_ops, pfxs=[px],
                    maxsamples=2, maxbins=2),
         ]
     return [
@@ -314,7 +347,7 @@ def _scopes(tier, seed):
         _scope("<=2 rows, no cn column, PAR positions, one naming style", hascn=False, positions=["s0", "par1", "par2"],
                maxrows=2, ploidies=[pl, 1 + (pl % 6)], females=[fe], hapxs=both, pfxs=[px],
                genomes=["none", ["grch37", "grch38"][(seed // 2) % 2]]),
-        _scope("seg / jtv / cdt / nexus: 1..2 files of <=2 bins, ids from {A, B}", mops=tab_ops, pfxs=["chr", ""],
+        _scope("seg / jtv / cdt / nexus: 1..2 files of <=2 bins out of 4, ids from {A, B}", mops=tab_ops, pfxs=["chr", ""],
                maxsamples=2, maxbins=2),
         _scope("seg / jtv / cdt / nexus: 1..3 files of 1 bin, ids from {A, B}", mops=tab_ops, pfxs=[px], maxsamples=3,
                maxbins=1),
@@ -448,6 +481,9 @@ def random_tables(ctx: Ctx, n):
             sids[rng.randrange(1, ns)] = sids[0] if rng.random() < 0.7 else sids[rng.randrange(ns)]
         nb = rng.choice([1, 2, 3, 8, 25])
         base_tab = _sorted(_rand_tab(rng, nb, pfx, "none", 2))
+        if op != "seg" and rng.random() < 0.9:       # bins of a .cnr are distinct regions (premise of jtv / cdt)
+            seen = set()
+            base_tab = [r for r in base_tab if (r[BASE], r[S], r[E]) not in seen and not seen.add((r[BASE], r[S], r[E]))]
         samples = []
         for j in range(ns):
             if op == "seg":      # segment breakpoints are each sample's own; chromosomes may be missing in the first
@@ -462,9 +498,41 @@ def random_tables(ctx: Ctx, n):
                 if j and rng.random() < 0.3:
                     tab = _mutate_bins(rng, tab)
             samples.append([sids[j], tab])
-        out.append({"op": op, "via": "cmd", "samples": samples, "enumerate": op == "seg" and rng.random() < 0.5,
-                    "hasprobes": rng.random() < 0.8 if op == "seg" else True, "lmode": "grid"})
+        rec = {"op": op, "via": "cmd", "samples": samples, "enumerate": op == "seg" and rng.random() < 0.5,
+               "hasprobes": rng.random() < 0.8 if op == "seg" else True, "lmode": "grid"}
+        if rng.random() < 0.45:
+            rec["files"] = _file_style(rng, op, samples)
+        out.append(rec)
     return out
+
+
+def _file_style(rng, op, samples):
+    """Input files as they occur in practice: bins whose log2 cell is empty (first / interior / last row; in one
+    file only -- the other files then either omit that bin, keep it with a value, or also leave it empty -- or in
+    all files), and rows not in sorted order.  What the export is given is whatever the reader makes of them."""
+    files = [[sid, [list(r) + [0] for r in tab]] for sid, tab in samples]
+    style = rng.choice(["empty", "empty", "empty", "unsorted", "both"])
+    if style in ("empty", "both"):
+        n0 = len(files[0][1])
+        where = rng.choice(["first", "interior", "last", "several"])
+        idx = {"first": [0], "last": [n0 - 1], "interior": [rng.randrange(n0)],
+               "several": sorted(set(rng.randrange(n0) for _ in range(3)))}[where]
+        others = rng.choice(["omit", "omit", "empty", "value"])        # what the other files do with those bins
+        aligned = op != "seg"                                          # jtv/cdt/nexus files share their bins
+        for k, (sid, rows) in enumerate(files):
+            if k == 0 or not aligned:
+                for i in ([j for j in idx if j < len(rows)] if k == 0 else [rng.randrange(len(rows))]):
+                    rows[i][MISS] = 1
+            elif len(rows) == n0:
+                if others == "empty":
+                    for i in idx:
+                        rows[i][MISS] = 1
+                elif others == "omit":
+                    files[k][1] = [r for i, r in enumerate(rows) if i not in idx]
+    if style in ("unsorted", "both"):
+        for f in files:
+            rng.shuffle(f[1])
+    return files
 
 
 # ----------------------------------------------------------------------------- bookkeeping (counters only)
@@ -509,7 +577,7 @@ def _count(ctx: Ctx, rec):
             else:
                 ctx.bump("no_cn_column_rows")
     else:
-        ctx.count_input([op, rec["samples"], rec["enumerate"], rec["hasprobes"]])
+        ctx.count_input([op, rec.get("files", rec["samples"]), rec["enumerate"], rec["hasprobes"]])
         sids = [s[0] for s in rec["samples"]]
         if len(set(sids)) < len(sids):
             ctx.bump("repeated_sample_id")
@@ -517,6 +585,11 @@ def _count(ctx: Ctx, rec):
         if any(b != bins[0] for b in bins[1:]):
             ctx.bump("mismatching_bins" if op != "seg" else "seg_samples_with_own_breakpoints")
         ctx.bump(f"files_{len(sids)}")
+        if "files" in rec:
+            if any(r[MISS] for f in rec["files"] for r in f[1]):
+                ctx.bump("files_with_empty_log2_cell")
+            if any(f[1] != sorted(f[1], key=lambda r: (_chrom_order(r[BASE]), r[S], r[E])) for f in rec["files"]):
+                ctx.bump("files_not_in_sorted_order")
         if any(r[S] == 0 for s in rec["samples"] for r in s[1]):
             ctx.bump("start_zero")
 
@@ -560,7 +633,8 @@ def run(ctx: Ctx):
                      "par1_sta1 = PAR1 extended by one base at its end / start (not inside)",
         "ratio grid": "small = {6,13,19,25,31,38,50,63}/25; full adds {3,7,12,18,32,37,62,75}/25 and the exact-tie "
                       "ratios 1/2, 3/2 (out of scope where r*q = k+1/2)",
-        "table ops": "files over the bins chr1:0-50:G, chrX:100-200:G, chrX:100-200:H (sorted, <= maxbins rows), "
+        "table ops": "files over the bins chr1:0-50:G, chrX:100-200:G, chrX:100-200:H, chrX:300-400:G (sorted, distinct "
+                     "regions, <= maxbins rows), "
                      "log2 base -1.234 or 0.585 (+1 per row), sample ids A/B, 1..maxsamples files in every order"}
     n_bv, n_tab = (40000, 20000) if thorough else (2500, 1750)
     rnd = ctx.execute(execute, random_bed_vcf(ctx, n_bv) + random_tables(ctx, n_tab))
@@ -580,8 +654,11 @@ def run(ctx: Ctx):
                        "ties are counted out_of_scope)",
                        "export vcf: the table has an integer probes column (rows whose probes field is not a digit "
                        "string are skipped by design; records without it are out_of_scope)",
-                       "seg/jtv/cdt/nexus: every input file has >= 1 row and is written in the order tabio.read "
-                       "sorts it",
+                       "seg/jtv/cdt/nexus: the table the export is given is what cnvlib's reader returns for the input "
+                       "file (content only); files with empty log2 cells and unsorted rows are read back that way, "
+                       "other files are written in the order tabio.read sorts them; every table has >= 1 row",
+                       "jtv/cdt: no two rows of one file share chromosome, start and end (premise; otherwise 'the same "
+                       "bins' would depend on how the reader orders tied rows)",
                        "VCF CIPOS/CIEND (--cnr) and the FOLD_CHANGE values are not part of the property and not judged"]
 
 
